@@ -20,6 +20,43 @@ def tlc_cfg(text, name, **kw):
     return vlib.tlc("MCLimiter", name, workdir=wd, **kw)
 
 
+def cleanup_race(chk, sd, binp):
+    """"for any arrival pattern and any concurrency": Allow against the cleanup pass.  spec/LimiterRace.tla splits Allow
+    (lookup, gate rl:lock, critical section) and the cleanup pass (gate rl:clean, critical section); TLC checks the
+    burst / window clauses for every interleaving and emits every transition; the gate scheduler in limsim executes
+    them on the real limiter (one parked caller, one parked cleanup pass, whole Allows in between)."""
+    r = vlib.tlc("MCLimiterRace", "MCLimiterRaceFixed.cfg", workers=vlib.NCPU, timeout=900)
+    chk.add_tlc("M|=P, all interleavings of Allow (2 steps) / cleanup (2 steps) / ticks, 4 configurations", r)
+    if r.rc != 0:
+        chk.notes.append("MODEL-CEX (LimiterRace): " + ",".join(r.invariant_violated))
+        vlib.log("MODEL-CEX (not a verdict): LimiterRace violates " + ",".join(r.invariant_violated))
+    g = vlib.tlc("MCLimiterRace", "GenLimiterRace.cfg", workers=8, timeout=900)
+    ws, stats = vlib.walks(g, max_len=150)
+    scripts = [{"id": "race-%d-%d" % (w["init"], j), "cf": w["cf"], "race": True, "steps": [{"a": a["a"]} for a in w["acts"]]}
+               for j, w in enumerate(ws)]
+    tp = vlib.run_chunked(binp, scripts, sd, "limrace", chunk=300)
+    chk.cov["traces_validated_against_impl"] += len(scripts)
+    chk.cov["replayed_transitions_cleanup_race"] = stats["transitions"]
+    ev = vlib.read_ndjson(tp)
+    chk.cov["drift"] += sum(1 for e in ev if e["ev"] == "drift")
+    viols, pr = vlib.observe("ObsLimiterTrace", "ObsLimiterTrace.cfg", tp)
+    chk.add_tlc("P:LimiterObs over gate-scheduled replay", pr)
+    by_id = {s["id"]: s for s in scripts}
+    for s in scripts:
+        chk.count_case([s["cf"], s["id"]])
+    for v in viols:
+        for vv in v["v"]:
+            sc = by_id.get(v["seg"], {})
+            sig = {"clause": vv["clause"], "info": vv["info"], "cf": sc.get("cf"), "class": "schedule"}
+            seg, on = [], False
+            for e in ev:
+                if e["ev"] == "cfg":
+                    on = e["id"] == v["seg"]
+                if on:
+                    seg.append(e)
+            chk.violation(sig, [{"script": sc, "line": v["line"]}] + seg, name="%s-%s.ndjson" % (vv["clause"], v["seg"]))
+
+
 def system_level(chk, sd, g):
     """the limiter model's walks through the whole balancer (lbsim, rate limiter enabled): every model Allow is a
     client request; the client is identified by the connection's address or by X-Forwarded-For; verdict = 429 or not,
@@ -81,7 +118,7 @@ def system_level(chk, sd, g):
 def run(tier):
     chk = vlib.Check("C09", tier)
     sd = vlib.scratch("c09")
-    binp = vlib.go_build("limsim", "internal/zz_verif/limsim", ["limsim/main.go"], sd, faketime=True)
+    binp = vlib.go_build("limsim", "internal/zz_verif/limsim", ["limsim/main.go", "limsim/gate_on.go", "limsim/gate_off.go"], sd, faketime=True)
     thorough = tier == "thorough"
     cfgset = "CfgAll" if thorough else "CfgQuick"
     clients = [1, 2, 3] if thorough else [1, 2]
@@ -168,6 +205,7 @@ def run(tier):
     if scripts:
         chk.sample({"script": scripts[0]["id"], "cf": scripts[0]["cf"], "steps": scripts[0]["steps"][:14], "events": ev[1:12]})
     system_level(chk, sd, g2)
+    cleanup_race(chk, sd, binp)
     import dist_common
     dist_common.run(chk, sd, tier, ["limconc"], {"C09"})
     chk.cov["exhaustive"] = True
